@@ -4,6 +4,7 @@ package vctx
 
 import (
 	"errors"
+	"sync"
 
 	"golang.org/x/net/internal/zzverif/vsched"
 )
@@ -30,10 +31,17 @@ func Background() Context { return background{} }
 type cancelCtx struct {
 	done *vsched.Chan[struct{}]
 	err  error
+	mu   sync.Mutex // free-running mode only
 }
 
 func (c *cancelCtx) Done() *vsched.Chan[struct{}] { return c.done }
-func (c *cancelCtx) Err() error                   { return c.err }
+func (c *cancelCtx) Err() error {
+	if vsched.Free {
+		c.mu.Lock()
+		defer c.mu.Unlock()
+	}
+	return c.err
+}
 
 // CancelFunc cancels a context; calling it is a scheduling point.
 type CancelFunc func()
@@ -44,6 +52,10 @@ func WithCancel(parent Context) (Context, CancelFunc) {
 	c := &cancelCtx{done: vsched.Make[struct{}](0)}
 	return c, func() {
 		vsched.Yield()
+		if vsched.Free {
+			c.mu.Lock()
+			defer c.mu.Unlock()
+		}
 		if c.err == nil {
 			c.err = Canceled
 			c.done.CloseNow()
